@@ -47,6 +47,35 @@ func c08declared(s []byte, sparse bool) int {
 	return n
 }
 
+// c08lenientN: the vertex count Sparse6Decode would compute from the bytes behind the ':' if it did NOT check the
+// byte range (byte arithmetic as in the Go code). Used only by the generator to keep the allocation of
+// NewSparse(n) bounded even when the range check of the code under test is broken.
+func c08lenientN(s []byte) int {
+	magic := ">>sparse6<<"
+	if len(s) >= len(magic) && string(s[:len(magic)]) == magic {
+		s = s[len(magic):]
+	}
+	if len(s) > 0 && s[0] == ':' {
+		s = s[1:]
+	}
+	d := func(c byte) int { return int(c - 63) }
+	switch {
+	case len(s) == 0:
+		return 0
+	case s[0] != 126:
+		return d(s[0])
+	case len(s) >= 4 && s[1] != 126:
+		return d(s[1])<<12 + d(s[2])<<6 + d(s[3])
+	case len(s) >= 8:
+		n := 0
+		for i := 2; i < 8; i++ {
+			n = n<<6 + d(s[i])
+		}
+		return n
+	}
+	return 0
+}
+
 func c08run(sparse bool) func(args []string) Result {
 	name := "Graph6Decode"
 	if sparse {
@@ -269,6 +298,9 @@ func c08gen(sparse bool) func(r *rand.Rand, tier string, emit func(string)) {
 		out := func(s []byte) {
 			// declared n <= 4096 (Sparse6Decode allocates n neighbour lists before reading the stream)
 			if d := c08declared(s, sparse); d > 4096 && (sparse || r.Intn(4) != 0) {
+				return
+			}
+			if sparse && c08lenientN(s) > 4096 {
 				return
 			}
 			emit(proto + " " + c07hex(s))
